@@ -336,11 +336,11 @@ class CInference(Inference):
         minimal correction subsets, which determines entailment decisions.
         """
         logger.debug("translate called")
+        # one impact per conditional, named by the conditional's key (the sums built by
+        # makeSummation refer to eta_<key>)
         eta = {
             i: Symbol(f"eta_{i}", INT)
-            for i, _ in enumerate(
-                self.epistemic_state["belief_base"].conditionals, start=1
-            )
+            for i in self.epistemic_state["belief_base"].conditionals
         }
         # defeat= = checkTautologies(self.epistemic_state['belief_base'].conditionals)
         # if not defeat: return False
@@ -599,7 +599,8 @@ class CInference(Inference):
 
         vSum = makeSummation({0: vMin})
         fSum = makeSummation({0: fMin})
-        mv, mf = freshVars(0)
+        # 'q' keeps the query's minima apart from those of a conditional keyed 0
+        mv, mf = freshVars("q")  # type: ignore[arg-type]
         vM = minima_encoding(mv, vSum[0])
         fM = minima_encoding(mf, fSum[0])
         # print(f"vM {vM}")
